@@ -73,4 +73,16 @@ theorem handleConnection_tie
   rcases hr : getProxyRequest inner with ⟨addr, rerr⟩
   cases ok <;> cases aerr <;> cases rerr <;> (try by_cases hlt : d < now + h.readTimeout) <;> simp [hcd, ha, hr, hlt]
 
+/-- **ssService.HandleStream** (service/shadowsocks.go): exactly one call of the stream handler, for this connection, with
+    the per-connection metrics object obtained from (exactly one) `AddOpenTCPConnection` on this connection — or the nil
+    metrics when the service has none; nothing else -/
+theorem handleStream_tie (addOpen : Opaque "service.ServiceMetrics" → Opaque "net.Conn" → Opaque "service.TCPConnMetrics")
+    (s : Code.ssService) (ctx : Opaque "context.Context") (conn : Conn) :
+    Code.ssService.HandleStream addOpen s ctx conn =
+      some { s with eff := s.eff ++ [{ name := "sh.Handle", args := [], vals :=
+        [[Atom.tok ctx.val], [Atom.tok conn.val],
+         [Atom.tok (if s.metrics ≠ ⟨0⟩ then addOpen s.metrics ⟨conn.val⟩ else ⟨0⟩).val]] }] } := by
+  unfold Code.ssService.HandleStream
+  by_cases h : s.metrics = ⟨0⟩ <;> simp [h]
+
 end OutlineModel.Tie.Handle
